@@ -209,7 +209,7 @@ theorem C20_equals_direct_load (w : World) (s s1 : State) (k : Kind) (o : Obj)
   | ok path =>
     simp only [hf] at h
     cases hl : w.load k path with
-    | error e => cases e <;> simp [hl] at h
+    | error e => simp only [hl] at h; split at h <;> simp at h
     | ok text =>
       simp only [hl] at h
       split at h <;>
@@ -234,7 +234,7 @@ theorem C20_cached_after (w : World) (s s1 : State) (k : Kind) (o : Obj) (hk : c
     | ok path =>
       simp only [hf] at h
       cases hl : w.load k path with
-      | error e => cases e <;> simp [hl] at h
+      | error e => simp only [hl] at h; split at h <;> simp at h
       | ok text =>
         simp only [hl, hk, if_true, Prod.mk.injEq, Except.ok.injEq] at h
         obtain ⟨h1, h2⟩ := h
@@ -260,7 +260,8 @@ theorem C20_cached_step (w : World) (s : State) (k : Kind) (o : Obj) (hc : s.cac
         simp only
         cases hl : w.load k' path with
         | error e =>
-          cases e <;> simp [hc, hk, loadCount, List.filter_append, hne]
+          simp only
+          split <;> simp [hc, loadCount, List.filter_append, hne, hk]
         | ok text =>
           simp only
           split
@@ -299,19 +300,37 @@ theorem C20_errors_missing (w : World) (s : State) (k : Kind) (hc : s.cache k = 
     rw [List.find?_eq_none]; intro c hc'; simp [h c hc']
   simp [access, hc, find, this]
 
-/-- the file is there but loading raises ValueError (JSON syntax error, undecodable bytes, wrong metadata type, a
-failing validator): RuntimeError naming the FILE; nothing is cached, so a later access tries again -/
-theorem C20_errors_undecodable (w : World) (s : State) (k : Kind) (path : Str) (hc : s.cache k = none)
-    (hf : find w s.composePath (candidates k) = .ok path) (hl : w.load k path = .error .valueError) :
-    (access w s k).2 = .error (.runtime path) ∧ (access w s k).1.cache = s.cache := by
-  simp [access, hc, hf, hl]
+/-- the exception classes wrapped by `_load_metadata`, as read from its `except` clause (since the F20 fix) -/
+theorem C20_wrapped_classes :
+    Gen.composeWrapped = ["ValueError", "KeyError", "TypeError", "AttributeError"]
+    ∧ wrapped .valueError = true ∧ wrapped .keyError = true ∧ wrapped .typeError = true ∧ wrapped .attributeError = true
+    ∧ wrapped .indexError = false ∧ wrapped .runtimeError = false ∧ wrapped .other = false := by decide
 
-/-- any OTHER exception class of the loader propagates unchanged – today that includes `KeyError`/`TypeError` for a
-syntactically valid JSON document of the wrong shape such as `{}` (finding F20) -/
+/-- the file is there but loading raises an exception of a wrapped class – ValueError (JSON syntax error, undecodable
+bytes, wrong metadata type, a failing validator) or KeyError / TypeError / AttributeError (well-formed JSON that is
+not the expected metadata: `{}`, `[]`, a header without payload, a payload of the wrong type): RuntimeError naming
+the FILE; nothing is cached, so a later access tries again -/
+theorem C20_errors_undecodable (w : World) (s : State) (k : Kind) (path : Str) (e : Err) (hc : s.cache k = none)
+    (hf : find w s.composePath (candidates k) = .ok path) (hl : w.load k path = .error e)
+    (he : e = .valueError ∨ e = .keyError ∨ e = .typeError ∨ e = .attributeError) :
+    (access w s k).2 = .error (.runtime path) ∧ (access w s k).1.cache = s.cache := by
+  have hw : wrapped e = true := by
+    obtain ⟨_, h1, h2, h3, h4, _⟩ := C20_wrapped_classes
+    rcases he with he | he | he | he <;> subst he <;> assumption
+  simp [access, hc, hf, hl, hw]
+
+/-- any exception of a class outside the `except` clause (e.g. an OSError: the candidate is a directory) propagates
+unchanged -/
 theorem C20_errors_other_propagate (w : World) (s : State) (k : Kind) (path : Str) (e : Err) (hc : s.cache k = none)
-    (hf : find w s.composePath (candidates k) = .ok path) (hl : w.load k path = .error e) (he : e ≠ .valueError) :
+    (hf : find w s.composePath (candidates k) = .ok path) (hl : w.load k path = .error e) (he : wrapped e = false) :
     (access w s k).2 = .error (.other e) := by
-  cases e <;> simp_all [access]
+  simp [access, hc, hf, hl, he]
+
+/-- what the accessors did before the F20 fix (`except ValueError` only), stated on the predicate itself: with that
+clause a KeyError – what `{}` raises – is not wrapped -/
+theorem C20_preF20_witness :
+    ((errBases .keyError).any (fun c => ["ValueError"].contains c)) = false
+    ∧ ((errBases .valueError).any (fun c => ["ValueError"].contains c)) = true := by decide
 
 /-! ### non-vacuity: a concrete tree with all three layouts at once -/
 def exampleWorld : World :=
